@@ -1,9 +1,9 @@
 package main
 
 import (
-	"golang.org/x/tools/go/ssa"
 	"flag"
 	"fmt"
+	"golang.org/x/tools/go/ssa"
 	"os"
 	"path/filepath"
 	"runtime"
